@@ -4,10 +4,15 @@ Scanner style: no regular expression and no code is shared with xdoctest.checker
 """
 ESC = '\x1b'
 def strip_ansi(s):
+    """removes colour / control sequences: the introducer is ESC [ or the single 8-bit character CSI (0x9b)"""
     out = []; i = 0; n = len(s)
     while i < n:
+        j = None
         if s[i] == ESC and i + 1 < n and s[i+1] == '[':
             j = i + 2
+        elif s[i] == '\x9b':
+            j = i + 1
+        if j is not None:
             while j < n and '0' <= s[j] <= '?': j += 1
             while j < n and ' ' <= s[j] <= '/': j += 1
             if j < n and '@' <= s[j] <= '~':
